@@ -415,3 +415,11 @@ Proof. reflexivity. Qed.
 Lemma hist_stable_effective o h root k :
   stable_part (hist_behaviour o h {| u_kind := k; u_root := Some root |}) = stable_part (spec_behaviour (effective o root)).
 Proof. rewrite hist_stable. cbn [config_of_use u_root]. do 2 f_equal. exact (bound_is_effective LoadV0 root o). Qed.
+
+Lemma auto_tags_byvalue_partial e root o :
+  in_region_auto (root_config e root) o = false ->
+  impl_union_auto_byvalue (root_config e root) o = spec_union_auto (effective o root).
+Proof.
+  intros H. unfold impl_union_auto_byvalue. rewrite (auto_tags_config _ _ H).
+  unfold spec_union_auto. now rewrite Bool.andb_diag, bound_is_effective.
+Qed.
